@@ -27,6 +27,23 @@ FSORT = {
 ISIZE = {torch.int32: 32, torch.int64: 64, torch.int16: 16, torch.int8: 8, torch.uint8: 8}
 
 
+def _randint_args(args: Tuple[Any, ...], kwargs: Dict[str, Any]) -> Tuple[int, int, Tuple[int, ...]]:
+    """torch.randint(low=0, high, size, *, ...) in every positional / keyword spelling"""
+    a = list(args)
+    if "size" in kwargs:
+        size = kwargs["size"]
+    else:
+        size = a.pop()
+    if "high" in kwargs:
+        high = kwargs["high"]
+        low = kwargs.get("low", a[0] if a else 0)
+    elif len(a) >= 2:
+        low, high = a[0], a[1]
+    else:
+        low, high = kwargs.get("low", 0), a[0]
+    return int(low), int(high), tuple(size)
+
+
 class Session:
     """State of one symbolic run: random draws, side constraints, structural events."""
 
@@ -46,22 +63,30 @@ class Session:
 
         def randint(*args: Any, **kwargs: Any) -> Any:
             # torch.randint(low, high, size, ...) / torch.randint(high, size, ...)
-            if len(args) >= 3:
-                low, high, size = args[0], args[1], tuple(args[2])
-            else:
-                low, high, size = 0, args[0], tuple(args[1])
-            dtype = kwargs.get("dtype", torch.int64)
+            low, high, size = _randint_args(args, kwargs)
+            dtype = kwargs.get("dtype") or torch.int64
             bits = ISIZE[dtype]
             v = z3.BitVec(f"r{len(sess.draws)}", bits)
             sess.constraints.append(z3.And(v >= low, v < high))  # signed compare; low>=0
             sess.draws.append((v, high - low, size))
             return BTensor(torch.empty(size, dtype=dtype, device="meta"), v)
 
+        self._orig_randint_like = torch.randint_like
+
+        def randint_like(inp: Any, *args: Any, **kwargs: Any) -> Any:
+            if not isinstance(inp, BTensor):
+                return sess._orig_randint_like(inp, *args, **kwargs)
+            kw = {k: v for k, v in kwargs.items() if k in ("low", "high")}
+            kw["size"] = tuple(inp.shape)
+            return randint(*args, dtype=kwargs.get("dtype") or inp.dtype, **kw)
+
+        torch.randint_like = randint_like
         torch.randint = randint  # takes no tensor argument: bypasses __torch_function__
         return self
 
     def __exit__(self, *exc: Any) -> None:
         torch.randint = self._orig_randint
+        torch.randint_like = self._orig_randint_like
         Session.current = None
 
     def fresh_var(self, dtype: torch.dtype) -> Any:
